@@ -335,6 +335,12 @@ def gen_de_methods(src, attempt):
         for name in DE_METHODS:
             sig, body = find_fn(text[i0:], name)
             what = 'deserializer.rs:' + name
+            # the visitor / seed parameter may carry any name: normalise it
+            mv = re.search(r'\b(\w+)\s*:\s*[VK]\b', sig)
+            if mv and mv.group(1) not in ('visitor', '_visitor', 'seed'):
+                canon = 'seed' if 'seed' in name else 'visitor'
+                body = re.sub(r'\b' + re.escape(mv.group(1)) + r'\b', canon, body)
+                sig = re.sub(r'\b' + re.escape(mv.group(1)) + r'\b', canon, sig)
             steps = [dstmt(s, what) for s in split_stmts(body)]
             ps = [p for p in params_of(sig) if p not in ('visitor', '_visitor', 'seed')]
             res.append("(%s, ([%s], [%s]))" % (coq_str(name), '; '.join(coq_str(p) for p in ps), '; '.join(steps)))
@@ -351,4 +357,218 @@ def gen_de_methods(src, attempt):
                 raise Untranslatable("%s::%s is `%s`" % (ty, meth, compact(body)[:120]))
         return "Definition access_hands_out_len_elements_in_order : bool := true."
     attempt(out, 'de/deserializer.rs:SeqAccess/MapAccess', access, 'access_hands_out_len_elements_in_order')
+    return '\n'.join(out) + '\n'
+
+
+# ----------------------------------------------------------------------------------------
+# GenAccumulator.v: CobsAccumulator::feed_ref as a statement tree
+
+class AccParser:
+    def __init__(self, text, what):
+        self.s = text
+        self.i = 0
+        self.what = what
+
+    def fail(self, msg):
+        raise Untranslatable("%s: %s near `%s`" % (self.what, msg, self.s[self.i:self.i + 60]))
+
+    def eat(self, lit):
+        if not self.s.startswith(lit, self.i):
+            self.fail("expected `%s`" % lit)
+        self.i += len(lit)
+
+    def block(self):
+        """`{ stmts }` -> list of coq statement terms"""
+        self.eat('{')
+        out = []
+        while not self.s.startswith('}', self.i):
+            out.append(self.stmt())
+        self.eat('}')
+        return out
+
+    def until(self, ch):
+        """text up to the next `ch` at depth 0 (consumes ch)"""
+        depth, j = 0, self.i
+        while j < len(self.s):
+            c = self.s[j]
+            if c == ch and depth == 0:
+                t = self.s[self.i:j]
+                self.i = j + 1
+                return t
+            if c in '([{':
+                depth += 1
+            elif c in ')]}':
+                if depth == 0:
+                    self.fail("unbalanced")
+                depth -= 1
+            j += 1
+        self.fail("no `%s`" % ch)
+
+    def aexp(self, t):
+        t = t.strip()
+        while t.startswith('(') and t.endswith(')') and self.balanced(t[1:-1]):
+            t = t[1:-1]
+        for op, ctor in (('+', 'AAdd'), ('-', 'ASub')):
+            k = self.top_index(t, op)
+            if k > 0:
+                return "(%s %s %s)" % (ctor, self.aexp(t[:k]), self.aexp(t[k + 1:]))
+        if t == 'self.idx':
+            return "AIdx"
+        if t == 'N':
+            return "ACap"
+        if re.match(r'^\d+$', t):
+            return "(AConst %s)" % t
+        m = re.match(r'^(\w+)\.len\(\)$', t)
+        if m:
+            return "(ALen %s)" % coq_str(m.group(1))
+        if re.match(r'^\w+$', t):
+            return "(AVarN %s)" % coq_str(t)
+        self.fail("expression `%s`" % t)
+
+    @staticmethod
+    def balanced(t):
+        d = 0
+        for c in t:
+            if c in '([{':
+                d += 1
+            elif c in ')]}':
+                d -= 1
+                if d < 0:
+                    return False
+        return d == 0
+
+    @staticmethod
+    def top_index(t, op):
+        d = 0
+        for k in range(len(t) - 1, -1, -1):
+            c = t[k]
+            if c in ')]}':
+                d += 1
+            elif c in '([{':
+                d -= 1
+            elif c == op and d == 0:
+                return k
+        return -1
+
+    def cond(self, t):
+        m = re.match(r'^(\w+)\.is_empty\(\)$', t)
+        if m:
+            return "(CEmpty %s)" % coq_str(m.group(1))
+        for op, ctor in (('<=', 'CLe'), ('>=', 'CGe'), ('<', 'CLt'), ('>', 'CGt')):
+            k = t.find(op)
+            if k > 0:
+                return "(%s %s %s)" % (ctor, self.aexp(t[:k]), self.aexp(t[k + len(op):]))
+        self.fail("condition `%s`" % t)
+
+    def slice_(self, t):
+        m = re.match(r'^&(\w+)\[(.+)\.\.\]$', t)
+        if m:
+            return "(SFrom %s %s)" % (coq_str(m.group(1)), self.aexp(m.group(2)))
+        if re.match(r'^\w+$', t):
+            return "(SVar %s)" % coq_str(t)
+        self.fail("slice `%s`" % t)
+
+    def result(self, t):
+        if t == 'FeedResult::Consumed':
+            return "RConsumed"
+        m = re.match(r'^FeedResult::(OverFull|DeserError)\((.+)\)$', t)
+        if m:
+            return "(R%s %s)" % (m.group(1), self.slice_(m.group(2)))
+        self.fail("result `%s`" % t)
+
+    def stmt(self):
+        s = self.s
+        if s.startswith('ifletSome(', self.i):
+            self.eat('ifletSome(')
+            n = self.until(')')
+            self.eat('=')
+            j = s.index('{', self.i)
+            v = s[self.i:j]
+            self.i = j
+            th = self.block()
+            self.eat('else')
+            el = self.block()
+            return "AIfSome %s %s [%s] [%s]" % (coq_str(n), coq_str(v), '; '.join(th), '; '.join(el))
+        if s.startswith('if', self.i) and not s.startswith('iflet', self.i):
+            self.eat('if')
+            j = s.index('{', self.i)
+            c = s[self.i:j]
+            self.i = j
+            th = self.block()
+            el = []
+            if s.startswith('else', self.i):
+                self.eat('else')
+                el = self.block()
+            return "AIfC %s [%s] [%s]" % (self.cond(c), '; '.join(th), '; '.join(el))
+        if s.startswith('let(', self.i):
+            self.eat('let(')
+            a = self.until(',')
+            b = self.until(')')
+            self.eat('=')
+            e = self.until(';')
+            m = re.match(r'^(\w+)\.split_at\((.+)\)$', e)
+            if not m:
+                self.fail("pair binding `%s`" % e)
+            return "ALetSplit %s %s %s %s" % (coq_str(a), coq_str(b), coq_str(m.group(1)), self.aexp(m.group(2)))
+        if s.startswith('let', self.i):
+            self.eat('let')
+            name = self.until('=')
+            e = self.until(';')
+            m = re.match(r'^(\w+)\.iter\(\)\.position\(\|&(\w+)\|(\w+)==0\)$', e)
+            if m and m.group(2) == m.group(3):
+                return "ALetZeroPos %s %s" % (coq_str(name), coq_str(m.group(1)))
+            m = re.match(r'^matchcrate::from_bytes_cobs::<T>\(&mutself\.buf\[\.\.self\.idx\]\)\{Ok\((\w+)\)=>FeedResult::Success\{data:(\w+),remaining:(\w+),\},Err\(_\)=>FeedResult::DeserError\((\w+)\),\}$', e)
+            if m and m.group(1) == m.group(2):
+                return "ALetDecode %s %s %s" % (coq_str(name), coq_str(m.group(3)), coq_str(m.group(4)))
+            return "ALetN %s %s" % (coq_str(name), self.aexp(e))
+        if s.startswith('self.idx=', self.i):
+            self.eat('self.idx=')
+            return "ASetIdx %s" % self.aexp(self.until(';'))
+        if s.startswith('self.extend_unchecked(', self.i):
+            self.eat('self.extend_unchecked(')
+            v = self.until(')')
+            self.eat(';')
+            return "AExtend %s" % coq_str(v)
+        if s.startswith('return', self.i):
+            self.eat('return')
+            return "ARet %s" % self.result(self.until(';'))
+        # tail expression: up to the closing brace of the enclosing block
+        j = self.i
+        d = 0
+        while j < len(s):
+            if s[j] in '([{':
+                d += 1
+            elif s[j] in ')]}':
+                if d == 0:
+                    break
+                d -= 1
+            j += 1
+        t = s[self.i:j]
+        self.i = j
+        if re.match(r'^\w+$', t):
+            return "ARetVar %s" % coq_str(t)
+        return "ARet %s" % self.result(t)
+
+
+def gen_accumulator(src, attempt):
+    out = ["(* GENERATED by tools/translate.py from the Rust sources. Do not edit. *)",
+           "From PV Require Import Base AccDecl.", "Open Scope N_scope.", "",
+           "(* source/postcard/src/accumulator.rs: CobsAccumulator::feed_ref as a statement tree *)"]
+    text = src('source/postcard/src/accumulator.rs')
+
+    def body():
+        sig, b = find_fn(text, 'feed_ref')
+        m = re.search(r'\(&\'de\s*mut\s+self\s*,\s*(\w+)\s*:', sig)
+        if not m:
+            raise Untranslatable("feed_ref: signature `%s`" % ' '.join(sig.split()))
+        p = AccParser('{' + compact(b) + '}', 'accumulator.rs:feed_ref')
+        stmts = p.block()
+        sig2, b2 = find_fn(text, 'extend_unchecked')
+        if compact(b2) != 'letnew_end=self.idx+input.len();self.buf[self.idx..new_end].copy_from_slice(input);self.idx=new_end;':
+            raise Untranslatable("extend_unchecked is `%s`" % compact(b2)[:120])
+        sig3, b3 = find_fn(text, 'feed')
+        if compact(b3) != 'self.feed_ref(input)':
+            raise Untranslatable("feed is `%s`" % compact(b3)[:120])
+        return ("Definition feed_ref_input : list N := %s.\nDefinition feed_ref_body : list astmt :=\n  [%s]." % (coq_str(m.group(1)), ';\n   '.join(stmts)))
+    attempt(out, 'accumulator.rs:feed_ref', body, 'feed_ref_body')
     return '\n'.join(out) + '\n'
